@@ -176,7 +176,8 @@ func (app *App) blockBeginner() blockBeginner {
 			panic(err)
 		}
 
-		feeOpt, err := app.Context.govern.GetFeeOption()
+		// the shared stores may still be aimed at the mempool (check) state by the last CheckTx
+		feeOpt, err := app.Context.govern.WithState(app.Context.deliver).GetFeeOption()
 		if err != nil {
 			app.logger.Error("failed to get feeOption", err)
 		}
@@ -219,7 +220,7 @@ func (app *App) blockBeginner() blockBeginner {
 		app.header = req.Header
 		//Adds proposals that meet the requirements to either Expired or Finalizing Keys from transaction store
 		//Transaction store is not part of chainstate ,it just maintains a list of proposals from BlockBeginner to BlockEnder .Gets cleared at each Block Ender
-		AddInternalTX(app.Context.proposalMaster, app.Context.node.ValidatorAddress(), app.header.Height, app.Context.transaction, app.logger)
+		AddInternalTX(app.Context.proposalMaster.WithState(app.Context.deliver), app.Context.node.ValidatorAddress(), app.header.Height, app.Context.transaction, app.logger)
 		functionList, err := app.Context.extFunctions.Iterate(common.BlockBeginner)
 		functionParam := common.ExtParam{
 			InternalTxStore: app.Context.transaction,
